@@ -15,7 +15,7 @@ func init() {
 	register(&Def{
 		ID:    "C10",
 		Level: "exploration",
-		Rule: "seeded histories of 50..2000 steps on one pool allocator: get (up to 8 outstanding) / use {AppendSample x k, in-capacity Append, Write, WriteStriped, SetSample anywhere in the capacity through Slice(0,Capacity), same-type conversion into the buffer} / put of the buffer itself or of Slice(0,n) of it (each checkout put at most once) / forced double GC; all 13 built-in and 13 named element types; allocators with Length 0, 0<Length<Capacity, Length=Capacity and 1..8 channels; run in the plain build (sync.Pool hands a just-Put object back) and under -race (sync.Pool then drops a random quarter of the Puts); " +
+		Rule: "seeded histories of 50..2000 steps on one pool allocator: get (up to 2..24 outstanding, per history; a third of the histories alternate bursts of gets with bursts of puts) / use {AppendSample x k, in-capacity Append, Write, WriteStriped, SetSample anywhere in the capacity through Slice(0,Capacity), same-type conversion into the buffer} / put of the buffer itself or of Slice(0,n) of it (each checkout put at most once) / forced double GC / get-fill-put cycles on a second pool of the same element type (where possible with another channel count and the same total length and capacity); all 13 built-in and 13 named element types; allocators with Length 0, 0<Length<Capacity, Length=Capacity and 1..8 channels; run in the plain build (sync.Pool hands a just-Put object back) and under -race (sync.Pool then drops a random quarter of the Puts); " +
 			"every Get result is compared with a fresh allocation (shape, bit depth, zero over the whole capacity through the hook) and its address interval with those of all outstanding buffers; every outstanding buffer's contents are re-verified after every step; " +
 			"distinct = distinct histories (hash of allocator + operation list); non-trivial = the history contains a Get that returned a previously Put object (identity by pinned header or storage address)",
 		Assume: []string{"which object a Get returns is not asserted, only counted (reuse floor)", "every buffer ever seen is pinned so that addresses are never recycled by the Go allocator"},
@@ -155,10 +155,85 @@ func c10History(c *core.Ctx, r *core.Rand, t *dyn.TypeOps, al signal.Allocator, 
 		}
 		return true
 	}
+	// another pool of the same element type lives in the same process and is
+	// used in between; where the shape allows it, it has a different channel
+	// count but the same total length and capacity as the pool under test
+	var sib dyn.Pool
+	sal := signal.Allocator{Channels: al.Channels + 1, Length: al.Length, Capacity: al.Capacity}
+	if hi%3 != 2 {
+		for c2 := 1; c2 <= 8; c2++ {
+			if c2 != al.Channels && (al.Channels*al.Capacity)%c2 == 0 && (al.Channels*al.Length)%c2 == 0 && al.Capacity > 0 {
+				sal = signal.Allocator{Channels: c2, Length: al.Channels * al.Length / c2, Capacity: al.Channels * al.Capacity / c2}
+				if r.Chance(1, 2) {
+					break
+				}
+			}
+		}
+		if sal.Channels*sal.Capacity <= 4096 {
+			sib = t.PoolAlloc(sal)
+		}
+	}
+	sibCycle := func() bool {
+		var held []dyn.Buf
+		for k := r.Range(1, 3); k > 0; k-- {
+			g := sib.Get()
+			if g.Channels() != sal.Channels || g.Length() != sal.Length || g.Capacity() != sal.Capacity || g.RawLen() != sal.Channels*sal.Length || g.RawCap() != sal.Channels*sal.Capacity {
+				c.Violate(inst+"|shape-sibling-pool", caseID, fmt.Sprintf("Get on a second pool {C=%d L=%d K=%d} of the same element type returned %v", sal.Channels, sal.Length, sal.Capacity, mon.ShapeOf(g)), detail())
+				return false
+			}
+			all := g.RawAll()
+			for i := 0; i < all.Len(); i++ {
+				all.Set(i, stamp())
+			}
+			held = append(held, g)
+		}
+		for _, g := range held {
+			sib.Put(g)
+		}
+		log(fmt.Sprintf("sibling-pool{%d,%d,%d}:get*%d,fill,put*%d", sal.Channels, sal.Length, sal.Capacity, len(held), len(held)))
+		c.Obs("cycles_on_a_second_pool_of_the_same_type", 1)
+		return true
+	}
+	if sib != nil {
+		if p, msg := core.Guard(func() { sibCycle() }); p {
+			c.Violate(inst+"|panic", caseID, "get/put on a second pool panicked: "+msg, detail())
+			return
+		}
+	}
+	// how many buffers are outstanding at once, and whether gets and puts come
+	// in bursts (fill up to the limit, then give almost everything back)
+	maxOut, bursty, filling := 8, false, true
+	switch hi % 4 {
+	case 1:
+		maxOut = r.Pick(2, 3)
+	case 2:
+		maxOut, bursty = r.Range(9, 24), true
+	case 3:
+		bursty = true
+	}
+	if al.Channels*al.Capacity > 300 {
+		maxOut = min(maxOut, 8)
+	}
+	if bursty {
+		c.Obs("histories_with_bursts_of_gets_and_puts", 1)
+	}
 	for st := 0; st < steps; st++ {
 		c.Obs("steps", 1)
-		switch op := r.Intn(10); {
-		case op < 3 && len(out) < 8: // get
+		op := r.Intn(10)
+		if bursty {
+			if len(out) >= maxOut {
+				filling = false
+			} else if len(out) == 0 {
+				filling = true
+			}
+			if filling {
+				op = [10]int{0, 0, 0, 0, 0, 0, 3, 3, 7, 9}[op]
+			} else {
+				op = [10]int{7, 7, 7, 7, 7, 7, 3, 3, 0, 9}[op]
+			}
+		}
+		switch {
+		case op < 3 && len(out) < maxOut: // get
 			var g dyn.Buf
 			if p, msg := core.Guard(func() { g = pool.Get() }); p {
 				c.Violate(inst+"|panic", caseID, "Get panicked: "+msg, detail())
@@ -318,6 +393,15 @@ func c10History(c *core.Ctx, r *core.Rand, t *dyn.TypeOps, al signal.Allocator, 
 			c.Obs("puts", 1)
 		default:
 			switch {
+			case sib != nil && r.Chance(1, 2):
+				ok := true
+				if p, msg := core.Guard(func() { ok = sibCycle() }); p {
+					c.Violate(inst+"|panic", caseID, "get/put on a second pool panicked: "+msg, detail())
+					return
+				}
+				if !ok {
+					return
+				}
 			case r.Chance(1, 6):
 				runtime.GC()
 				runtime.GC()
